@@ -13,7 +13,7 @@ EXPLANATION = ('Byte-exact reassembly under arbitrary interleaving, chunk sizes 
                'is opened whenever the instance id differs, records are sorted by instance id, output paths read channels/file_idx only through '
                'last_instance() (superseded() only for size accounting), finished is set only by a zero-size header; (R19.4) both sides use the '
                'same header type, serialization config and file magic.')
-NOT_DECIDED = ['byte-exact reassembly under arbitrary interleaving, chunk sizes, torn files (value-level)']
+NOT_DECIDED = ['byte-exact reassembly under arbitrary interleaving and chunk sizes (value-level); of torn files only the header case is decided (R19.5), a file cut inside chunk data is not']
 ASSUMPTIONS = []
 WS = 'hyperqueue::worker::streamer::'
 PG = 'hyperqueue::worker::start::program::'
